@@ -45,8 +45,11 @@ def typed_history(rng, d, n_pairs, programs):
             if ct in ('numpy',) and op in ('inv', 'div', 'outerexp', 'outersin', 'outercos'):
                 continue
             calls.append(c)
+    shared = P.random_key_tuple(rng, d, 3, 1)
     for name in sorted(programs):
         pats = [P.random_key_tuple(rng, d, 3, 1) for _ in range(programs[name]['nargs'])]
+        if name in ('h', 'o1', 'o2'):
+            pats = [shared]        # the nested functions meet on one key pattern
         for ct in ('generic', 'int', 'frac', 'generic'):
             c = {'t': 'T1', 'kind': 'prog', 'op': name, 'args': pats, 'params': [], 'mode': 'num'}
             if ct != 'generic':
@@ -84,6 +87,10 @@ def run(ctx):
         d = rng.choice([2, 3, 3, 4])
         u = ucfg(sig=[rng.choice((1, -1, 0)) for _ in range(d)]) if rng.random() < 0.85 else (named_ucfg('2DPGA') if d == 3 else ucfg(sig=[1] * d))
         progs = c09.random_programs(rng, d, 2)
+        # nested registered functions: the inner one is needed by several outer ones and directly
+        progs['h'] = {'tree': ('gp', [('arg', 1), ('arg', 1)], [], 'infix'), 'nargs': 1, 'symbolic': False, 'pyname': 'h'}
+        progs['o1'] = {'tree': ('add', [('callreg', [('arg', 1)], ['h'], 'method'), ('callreg', [('arg', 1)], ['h'], 'method')], [], 'infix'), 'nargs': 1, 'symbolic': False, 'pyname': 'o1'}
+        progs['o2'] = {'tree': ('reverse', [('callreg', [('arg', 1)], ['h'], 'method')], [], 'infix'), 'nargs': 1, 'symbolic': False, 'pyname': 'o2'}
         opts = {'wrapper': rng.random() < 0.3}
         if rng.random() < 0.2:
             opts['cse'] = False
